@@ -38,8 +38,9 @@ Print Assumptions C14_string_roundtrip_all.
 
 
 (* ---- paths of a root followed by children with ANY key bytes, indexes with ANY integer, wildcards
-   of both kinds, descents and unions of strings and integers (a union of one member reads back as
-   that child or index) (this includes the normal paths Locate and Walk hand out). The
+   of both kinds, descents, unions of strings and integers (a union of one member reads back as
+   that child or index) and slices of up to three numbers (a missing end is filled in with the
+   largest end, as the parser always does) (this includes the normal paths Locate and Walk hand out). The
    printed text - dot form for token keys by the regenerated jp_tokenMap, bracketed literal
    otherwise, [n], .* and [*], a descent's second dot left to a following token child or star -
    parses back to the same fragments; a key printed in brackets comes back with invalid UTF-8
@@ -55,7 +56,7 @@ Proof. exact path_text_round_trip_clean. Qed.
 
 Example C14_normal_path_example :
   let fs := [NChild [x61; x62]; NNth (-9223372036854775808)%Z; NDescent; NChild [x61; x20; x27]; NNth 0%Z; NDescent; NChild [x7a]; NWild true;
-             NDescent; NWild true; NWild false; NChild []; NDescent; NDescent; NChild [xc3; xa9]; NUnion [inl [x61; x27]; inr (-3)%Z; inl []]; NUnion [inr 0%Z; inr 7%Z]; NDescent] in
+             NDescent; NWild true; NWild false; NChild []; NDescent; NDescent; NChild [xc3; xa9]; NUnion [inl [x61; x27]; inr (-3)%Z; inl []]; NUnion [inr 0%Z; inr 7%Z]; NSlice [1; 5]%Z; NSlice [0; 2147483647; -2]%Z; NSlice [-3; -1; 1]%Z; NDescent] in
   parse_path (print_path fs) = Some fs.
 Proof. vm_compute. reflexivity. Qed.
 
